@@ -78,6 +78,9 @@ func main() {
 			if i%5 == 4 {
 				d.Prog = prog.GenDirected(r, 2) // many keys, several shards: stresses producer-side and machine combiners
 			}
+			if i%5 == 2 {
+				d.Prog = prog.GenDirected(r, []int{0, 3, 4, 1}[(i/5)%4]) // boundary-straddling expansions, two-column keys, overlapping cogroups
+			}
 			d.Strat = append(d.Strat, Strategy{sessionCfgs[1], 128, 128, true})
 			for j := 0; j < 4; j++ {
 				d.Strat = append(d.Strat, Strategy{sessionCfgs[r.Intn(len(sessionCfgs))], r.Pick([]int{1, 2, 4, 128}), r.Pick([]int{1, 2, 128}), r.Bool()})
